@@ -63,7 +63,7 @@ func baseKind(kind string) string {
 func isGrp(kind string) bool { return strings.HasSuffix(kind, "grp") }
 
 func endsSession(path string) bool {
-	return path == "drop" || path == "dropearly" || path == "replace" || path == "heartbeat"
+	return path == "drop" || path == "dropearly" || path == "dropinflight" || path == "replace" || path == "heartbeat"
 }
 
 func needsPort(kind string) bool { return kind == "tcp" || kind == "udp" || kind == "tcpgrp" }
@@ -542,6 +542,55 @@ func runScen(w *world, g *hx.Gen, sc scen) {
 		if !mustOK(w.newProxy(s2, finalReq, npOpts{}), "reregister-refused:"+sc.label()) {
 			return
 		}
+	case "dropinflight":
+		// the control connection ends WHILE the NewProxy is being processed: the handler is held at
+		// ctl.regproxy.after_exist, the connection is closed, 300 ms pass, the handler goes on.  The handler
+		// runs inside the dispatcher's read loop, so the teardown can only start after the registration has
+		// finished and stored its proxy: model = the registration (no reply can be read), then the session end.
+		s := w.peers[s2]
+		gt := installGate("ctl.regproxy.after_exist", "subj")
+		released := false
+		rel := func() {
+			if !released {
+				released = true
+				close(gt.release)
+			}
+		}
+		defer verifhook.Install(nil)
+		defer rel()
+		done := w.srv.Svc.VerifC10Done(s.runID)
+		if err := s.p.Send(subj.toMsg()); err != nil {
+			w.harnessFail("cannot send NewProxy")
+			return
+		}
+		select {
+		case <-gt.reached:
+		case <-time.After(3 * time.Second):
+			w.harnessFail("the gated registration did not reach ctl.regproxy.after_exist")
+			return
+		}
+		s.p.Close()
+		time.Sleep(300 * time.Millisecond)
+		rel()
+		gone := w.waitGone(s.runID, done, 3*time.Second)
+		verifhook.Install(nil)
+		delete(w.peers, s2)
+		if !gone {
+			w.fail("session-not-torn-down:"+w.label, "the session is still in the table after its connection was dropped during a registration")
+		}
+		time.Sleep(50 * time.Millisecond)
+		w.recordNew(s2, subj, notObs, "", true, noObs, "")
+		w.emit(fmt.Sprintf("(SEnd %d CDrop)", s2), notObs, w.observe())
+		w.pair(iBase, w.last())
+		checkPortFree(subj, subj.port)
+		subjSess = w.login()
+		if w.broken {
+			return
+		}
+		if !mustOK(w.newProxy(subjSess, subj, npOpts{}), "reregister-refused:"+sc.label()) {
+			return
+		}
+
 	case "f:addrace":
 		// session 2's registration is held between Run and Add while session 1 takes the name
 		iPre := w.last()
@@ -705,7 +754,7 @@ func runScen(w *world, g *hx.Gen, sc scen) {
 var withExistRace = false
 
 func pathsFor(kind string) []string {
-	ps := []string{"close", "drop", "dropearly", "replace", "heartbeat", "f:exists", "f:addrace"}
+	ps := []string{"close", "drop", "dropearly", "dropinflight", "replace", "heartbeat", "f:exists", "f:addrace"}
 	if withExistRace && (kind == "stcp" || kind == "sudp" || kind == "xtcp") {
 		ps = append(ps, "f:existrace")
 	}
@@ -726,7 +775,7 @@ func pathsFor(kind string) []string {
 	return ps
 }
 
-var allPaths = []string{"close", "drop", "dropearly", "replace", "heartbeat", "f:exists", "f:used", "f:notallowed", "f:squat",
+var allPaths = []string{"close", "drop", "dropearly", "dropinflight", "replace", "heartbeat", "f:exists", "f:used", "f:notallowed", "f:squat",
 	"f:noavail", "f:listen", "f:dom2", "f:loc2", "f:first", "f:gkey", "f:gport", "f:gdom", "f:g2dom", "f:grepeat", "f:quota", "f:addrace", "f:existrace"}
 
 // normalise: settle the flags a path or kind forces
@@ -746,7 +795,7 @@ func normalise(sc scen) scen {
 	if sc.kind == "udp" {
 		sc.own = true // a closed udp proxy may go on asking its session for work connections for a while
 	}
-	if sc.path == "dropearly" {
+	if sc.path == "dropearly" || sc.path == "dropinflight" {
 		sc.port0 = false
 	}
 	if sc.path == "f:noavail" {
@@ -927,7 +976,7 @@ func runRelease(cfg *hx.RunCfg) error {
 		}
 	}
 	for i, sc := range scs {
-		if sc.path != "heartbeat" && sc.path != "f:addrace" && sc.path != "f:existrace" {
+		if sc.path != "heartbeat" && sc.path != "f:addrace" && sc.path != "f:existrace" && sc.path != "dropinflight" {
 			order = append(order, i)
 		}
 	}
@@ -938,7 +987,7 @@ func runRelease(cfg *hx.RunCfg) error {
 		wg.Add(1)
 		go func(wk int) {
 			defer wg.Done()
-			addr := fmt.Sprintf("127.0.10.%d", 11+wk)
+			addr := loop(11 + wk)
 			for i := range jobs {
 				results[i] = runCase(cfg.Seed, i, scs[i], addr, rec)
 			}
@@ -950,8 +999,8 @@ func runRelease(cfg *hx.RunCfg) error {
 	close(jobs)
 	wg.Wait()
 	for i, sc := range scs {
-		if sc.path == "f:addrace" || sc.path == "f:existrace" {
-			results[i] = runCase(cfg.Seed, i, sc, "127.0.10.1", rec)
+		if sc.path == "f:addrace" || sc.path == "f:existrace" || sc.path == "dropinflight" {
+			results[i] = runCase(cfg.Seed, i, sc, loop(1), rec)
 		}
 	}
 
